@@ -443,6 +443,35 @@ _re_debug = re.compile(r'^debug (.*?) => (.*);$')
 _re_bb = re.compile(r'^(bb\d+)(?: \(cleanup\))?: \{$')
 
 
+def _const_line(l, one_line):
+    """'const NAME: TYPE = const VALUE;' (one_line) or 'const NAME: TYPE = {' -> (name, type, value|None)"""
+    mm = re.match(r'^(?:const|static(?: mut)?) ', l)
+    if not mm:
+        return None
+    body = l[mm.end():]
+    depth = 0
+    k = None
+    for i, c in enumerate(body):
+        if c in '<[(':
+            depth += 1
+        elif c in ')]' or (c == '>' and not (i > 0 and body[i - 1] in '-=')):
+            depth -= 1
+        elif c == ':' and depth == 0 and body[i:i + 2] == ': ' and not body[i - 1] == ':' and body[i + 1:i + 2] != ':':
+            k = i
+            break
+    if k is None:
+        return None
+    name, rest = body[:k], body[k + 2:]
+    if one_line:
+        m = re.match(r'^(.*?) = const (.*);$', rest)
+        if not m:
+            return None
+        return name, m.group(1), m.group(2)
+    if not rest.endswith(' = {'):
+        return None
+    return name, rest[:-4], None
+
+
 def _split_sig(hdr):
     """'path(args) -> ret' -> (path, [(local,type)], ret)"""
     depth = 0
@@ -481,12 +510,19 @@ def parse_mir(text):
         l = lines[i]
         if not l or l[0] == ' ' or l.startswith('//'):
             i += 1; continue
-        m1 = _re_const1.match(l)
+        m1 = _const_line(l, one_line=True)
         if m1:
-            consts.setdefault(m1.group(1), []).append((m1.group(2), m1.group(3)))
+            consts.setdefault(m1[0], []).append((m1[1], m1[2]))
             i += 1; continue
         mf = _re_fn.match(l)
-        mc = _re_const.match(l) if not mf else None
+        mc = None
+        if not mf:
+            cl = _const_line(l, one_line=False)
+            if cl:
+                class _M:
+                    def __init__(s, a, b): s.a, s.b = a, b
+                    def group(s, k): return (None, s.a, s.b)[k]
+                mc = _M(cl[0], cl[1])
         if not (mf or mc):
             i += 1; continue
         if mf:
